@@ -117,7 +117,9 @@ func (r *c35lRig) currentBlock() (uint64, error) {
 
 func (r *c35lRig) waitForBlock(ctx context.Context, b uint64) error {
 	period := uint64(signingAttemptMaximumBlocks())
+	own := false
 	if b > c35lStartBlock && (b-c35lStartBlock)%period == signingAttemptAnnouncementDelayBlocks {
+		own = true
 		// the loop's own (synchronous) wait for an announcement start block
 		n := int((b-c35lStartBlock)/period) + 1
 		r.events <- &c35lEvent{kind: "WaitStart", att: n}
@@ -137,7 +139,10 @@ func (r *c35lRig) waitForBlock(ctx context.Context, b uint64) error {
 	defer r.mu.Unlock()
 	for r.now < b {
 		if ctx.Err() != nil {
-			return ctx.Err()
+			if own {
+				return ctx.Err()
+			}
+			return nil // a deadline armed through withCancelOnBlock: nothing to report
 		}
 		r.cond.Wait()
 	}
@@ -228,7 +233,10 @@ func (r *c35lRig) liveReceivers() []int {
 
 // deliver hands a done message to every live handler and waits until each of
 // the receiving goroutines has processed it (a marker behind it was dequeued).
-func (r *c35lRig) deliver(sid, lab int, sig string) string {
+// Handlers of attempts before `current` exist only if an earlier attempt's
+// receiver outlived its attempt; their goroutine may be gone already, so their
+// markers are awaited only briefly.
+func (r *c35lRig) deliver(sid, lab int, sig string, current int) string {
 	hs := r.liveHandlers()
 	p := &signingDoneMessage{
 		senderID:      group.MemberIndex(sid),
@@ -237,20 +245,31 @@ func (r *c35lRig) deliver(sid, lab int, sig string) string {
 		signature:     c35Sig(sig),
 		endBlock:      c35lEndOf(sid, lab),
 	}
-	var wg sync.WaitGroup
+	var cur, old sync.WaitGroup
 	for _, h := range hs {
+		wg := &cur
+		if h.att < current {
+			wg = &old
+		}
 		wg.Add(1)
 		h.fn(&c35NetMsg{pub: r.w.pubs[r.w.cfg.Owner[sid-1]], payload: p})
 		h.fn(&c35NetMsg{payload: &c35Foreign{}, onPayload: wg.Done})
 	}
-	done := make(chan struct{})
-	go func() { wg.Wait(); close(done) }()
-	select {
-	case <-done:
-		return ""
-	case <-time.After(c35lWait):
+	wait := func(wg *sync.WaitGroup, d time.Duration) bool {
+		done := make(chan struct{})
+		go func() { wg.Wait(); close(done) }()
+		select {
+		case <-done:
+			return true
+		case <-time.After(d):
+			return false
+		}
+	}
+	if !wait(&cur, c35lWait) {
 		return "a receiver did not process a delivered message within 180 s"
 	}
+	wait(&old, time.Second)
+	return ""
 }
 
 // --- done check wrapper: the real signingDoneCheck does the work
@@ -495,7 +514,7 @@ func (d *c35lDriver) step(a string, inc []int, sid, lab int, sig string) {
 			d.waiting = true
 		}
 	case "Deliver":
-		if e := d.r.deliver(sid, lab, sig); e != "" {
+		if e := d.r.deliver(sid, lab, sig, d.att); e != "" {
 			d.herr = e
 		}
 	case "WaitTimeout":
@@ -603,6 +622,20 @@ func (d *c35lDriver) observe(dead []int) c35lObs {
 	}
 	o := c35lObs{Att: d.att, Recv: d.r.liveReceivers(), Res: d.res}
 	d.r.sdc.doneSignersMutex.Lock()
+	if d.waiting && !d.done && len(d.r.sdc.doneSigners) == d.r.sdc.expectedSignersCount {
+		// the real waiter reports at its next tick -- possibly already: whether
+		// it has cancelled the current attempt's receiver yet is a matter of
+		// timing, so the receiver is reported as the specification has it
+		// before its Check action
+		has := false
+		for _, a := range o.Recv {
+			has = has || a == d.att
+		}
+		if !has {
+			o.Recv = append(o.Recv, d.att)
+			sort.Ints(o.Recv)
+		}
+	}
 	o.Conf = []c35Conf{}
 	for seat, dm := range d.r.sdc.doneSigners {
 		o.Conf = append(o.Conf, c35Conf{Seat: int(seat), Sig: c35SigName(dm.signature), End: int(dm.endBlock)})
